@@ -240,3 +240,24 @@ Example C14_demo_reject :
     [OSubmitCall; OW 0 READY; OGatherIn; OW 0 RUNNING; OStart 0; OW 0 CANCELLING; OPoll 0 CANCELLING; ORet 0 7; OW 0 CANCELLED; OFin 0; OCollected 0;
      OGatherOut; OSubmitCall; OW 1 READY] 0) = Some (13, 2).
 Proof. vm_compute. reflexivity. Qed.
+
+(* a budget re-armed while an older one is set (evaluator.timeout = t1; batch; gather ALL; evaluator.timeout = t2; batch): the
+   second batch runs under a fresh budget - its early sentinel precedes every CANCELLING; with a stale clock (the second
+   batch told to cancel at once) the early sentinel of the latest budget is rejected (position 22, code 2) *)
+Example C14_demo_rearm :
+  exists g, accept (observed_cfg (-1)) (ginit 1 (Some BEval))
+    [OSubmitCall; OW 0 READY; OGatherIn; OW 0 RUNNING; OStart 0; OW 0 CANCELLING; OPoll 0 CANCELLING; ORet 0 7; OW 0 CANCELLED; OFin 0; OCollected 0; OGatherOut;
+     OAgain (Some BEval); OSubmitCall; OW 1 READY; OGatherIn; OW 1 RUNNING; OStart 1; OSent0; ORet 1 8; OFin 1; OW 1 DONE; OCollected 1; OGatherOut;
+     OCloseIn; OCloseOut; OReturn] 0 = (g, None) /\
+    phase g = PDone /\ tables_agree 2 (rows g) [(0, CANCELLED, 7%Z); (1, DONE, 8%Z)] = true /\
+  snd (accept (observed_cfg (-1)) (ginit 1 (Some BEval))
+    [OSubmitCall; OW 0 READY; OGatherIn; OW 0 RUNNING; OStart 0; OW 0 CANCELLING; OPoll 0 CANCELLING; ORet 0 7; OW 0 CANCELLED; OFin 0; OCollected 0; OGatherOut;
+     OAgain (Some BEval); OSubmitCall; OW 1 READY; OGatherIn; OW 1 RUNNING; OW 1 CANCELLING; OStart 1; OPoll 1 CANCELLING; ORet 1 8; OW 1 CANCELLED; OSent0] 0) = Some (22, 2).
+Proof. vm_compute. eexists. repeat split. Qed.
+
+(* a write by a second evaluator on the same storage that moves a CANCELLED job of the first one to DONE is rejected by the
+   per-job automaton (C14_terminal_once) whoever wrote it: the observed trace contains the writes of both evaluators *)
+Example C14_demo_peer_backwards :
+  ok_C14 1 [J 0 (W READY); J 0 (W RUNNING); J 0 FStart; J 0 (W CANCELLING); J 0 (Poll CANCELLING); J 0 FReturn; J 0 (W CANCELLED); J 0 (W DONE)]
+         [(0, 7%Z)] [(0, DONE, 7%Z)] (-1)%Z 0 = Some (0, 1).
+Proof. vm_compute. reflexivity. Qed.
